@@ -38,6 +38,26 @@ Definition mm_close (a b : mm) : bool :=
   | _, _ => false
   end.
 
+(* float32 runs: relative tolerance t; an off-diagonal entry of a dense matrix is compared at the scale
+   of the two variances it belongs to ((a_ii + a_jj) / 2 >= |a_ij| for a covariance matrix), because a
+   covariance near zero carries the rounding error of the variances *)
+Definition qclose_s (t s a b : Q) : bool := Qle_bool (Qabs (a - b)) (t * (Qabs a + s)).
+
+Definition dense_close (t : Q) (m n : list (list Q)) : bool :=
+  let d := diag_from 0 m in
+  forall2b (fun (ir : nat * list Q) r' =>
+              forall2b (fun (jx : nat * Q) y =>
+                          qclose_s t ((Qabs (nth (fst ir) d 0) + Qabs (nth (fst jx) d 0)) / 2) (snd jx) y)
+                       (indexed (snd ir)) r')
+           (indexed m) n.
+
+Definition mm_close_t (t : Q) (a b : mm) : bool :=
+  match a, b with
+  | Diag v, Diag w => forall2b (qclose_s t 0) v w
+  | Dense m, Dense n => dense_close t m n
+  | _, _ => false
+  end.
+
 Definition coord_eqb (a b : string * nat) : bool := String.eqb (fst a) (fst b) && Nat.eqb (snd a) (snd b).
 
 (* the property read directly on the observed coordinate labels, without the stacking model *)
@@ -55,6 +75,11 @@ Definition spec_mm (diag : bool) (h : history) (coords : list (string * nat)) : 
 
 Definition retunes (k : mcase) : bool := c_slow k && c_hashist k.
 
+Section Closeness.
+Variable mmc : mm -> mm -> bool.       (* closeness of matrices: model (left) vs observed (right) *)
+Variable qc : Q -> Q -> bool.          (* closeness of step sizes *)
+Variable tq : Q.                       (* relative tolerance of step^2 * trace *)
+
 Definition model_out (o : KeyOrder) (k : mcase) : option kstate :=
   if c_kernel k
   then tune (fun _ => c_sqrt k) o (c_diag k) (c_keys k) (c_slow k) (c_old k)
@@ -67,36 +92,36 @@ Definition sqrt_ok (k : mcase) (st' : kstate) : bool :=
   Qle_bool (Qabs (c_sqrt k * c_sqrt k - r)) ((1 # 1000000000) * Qabs r).
 
 (* step_new^2 * trace_new = step_old^2 * trace_old on the observed step size (relative 1e-6) *)
-Definition step_sq_ok (k : mcase) (st' : kstate) : bool :=
+Definition step_sq_ok_g (k : mcase) (st' : kstate) : bool :=
   let lhs := i_step k * i_step k * trace (imm st') in
   let rhs := step (c_old k) * step (c_old k) * trace (imm (c_old k)) in
-  Qle_bool (Qabs (lhs - rhs)) ((1 # 1000000) * Qabs rhs).
+  Qle_bool (Qabs (lhs - rhs)) (tq * Qabs rhs).
 
 (* the model (variant o) against the observations *)
-Definition agrees_model (o : KeyOrder) (k : mcase) : bool :=
+Definition agrees_model_g (o : KeyOrder) (k : mcase) : bool :=
   (* blackjax's coordinate order is the model's flat order *)
   list_eqb coord_eqb (flat_coords (c_keys k)) (i_coords k)
   && match model_out o k with
      | None => negb (i_valid k)
      | Some st' =>
          i_valid k
-         && mm_close (imm st') (i_new k)
+         && mmc (imm st') (i_new k)
          && (if c_kernel k
-             then qclose (step st') (i_step k)
-                  && (if retunes k then sqrt_ok k st' && step_sq_ok k st' else true)
+             then qc (step st') (i_step k)
+                  && (if retunes k then sqrt_ok k st' && step_sq_ok_g k st' else true)
              else true)
      end.
 
 (* the property read on the observed coordinate labels *)
-Definition agrees_spec (k : mcase) : bool :=
+Definition agrees_spec_g (k : mcase) : bool :=
   if i_valid k && (retunes k || negb (c_kernel k))
   then match spec_mm (c_diag k) (c_hist k) (i_coords k) with
-       | Some s => mm_close s (i_new k)
+       | Some s => mmc s (i_new k)
        | None => false
        end
   else true.
 
-Definition agrees (o : KeyOrder) (k : mcase) : bool := agrees_model o k && agrees_spec k.
+Definition agrees_g (o : KeyOrder) (k : mcase) : bool := agrees_model_g o k && agrees_spec_g k.
 
 (* ---------- end-to-end runs through the engine --------------------------------------------------
    One kernel of one chain: the engine calls tune once after every adaptation epoch; the harness
@@ -117,32 +142,32 @@ Definition run_imm (o : KeyOrder) (r : rcase) (n : nat) : option mm :=
   option_map imm (run_epochs (fun _ => 1) o (r_diag r) (r_keys r) (mkK 1 (r_init r))
                              (firstn n (r_epochs r))).
 
-Definition agrees_run_model (o : KeyOrder) (r : rcase) : bool :=
+Definition agrees_run_model_g (o : KeyOrder) (r : rcase) : bool :=
   list_eqb coord_eqb (flat_coords (r_keys r)) (r_coords r)
   && Nat.eqb (length (r_obs r)) (length (r_epochs r))
   && forallb (fun nob => match run_imm o r (S (fst nob)) with
-                         | Some m => mm_close m (snd nob)
+                         | Some m => mmc m (snd nob)
                          | None => false
                          end) (indexed (r_obs r)).
 
 (* the property read directly: after every slow epoch the observed matrix is the regularised
    (co)variance of that epoch's chain, coordinate by coordinate as labelled by the real position;
    after any other epoch it is the matrix observed before *)
-Fixpoint run_spec (diag : bool) (coords : list (string * nat)) (prev : mm)
+Fixpoint run_spec_g (diag : bool) (coords : list (string * nat)) (prev : mm)
          (eps : list (bool * option history)) (obs : list mm) : bool :=
   match eps, obs with
   | [], [] => true
   | (true, Some h) :: eps', m :: obs' =>
       match spec_mm diag h coords with
-      | Some s => mm_close s m && run_spec diag coords m eps' obs'
+      | Some s => mmc s m && run_spec_g diag coords m eps' obs'
       | None => false
       end
-  | _ :: eps', m :: obs' => mm_close prev m && run_spec diag coords m eps' obs'
+  | _ :: eps', m :: obs' => mmc prev m && run_spec_g diag coords m eps' obs'
   | _, _ => false
   end.
 
-Definition agrees_run (o : KeyOrder) (r : rcase) : bool :=
-  agrees_run_model o r && run_spec (r_diag r) (r_coords r) (r_init r) (r_epochs r) (r_obs r).
+Definition agrees_run_g (o : KeyOrder) (r : rcase) : bool :=
+  agrees_run_model_g o r && run_spec_g (r_diag r) (r_coords r) (r_init r) (r_epochs r) (r_obs r).
 
 (* ---------- whole engine runs: kernel sequence + epoch schedule --------------------------------
    One chain of one engine run.  [g_kerns]: the kernel sequence in the order in which the kernels were
@@ -161,15 +186,27 @@ Definition eng_state (o : KeyOrder) (g : ecase) (n : nat) : option (list (kern *
     (engine_run (fun _ => 1) o (map (fun km => (fst km, mkK 1 (snd km))) (g_kerns g)) []
                 (firstn n (g_epochs g))).
 
-Definition kern_close (p : kern * kstate) (m : mm) : bool :=
+Definition kern_close_g (p : kern * kstate) (m : mm) : bool :=
   match fst p with
-  | KMM _ _ => mm_close (imm (snd p)) m
+  | KMM _ _ => mmc (imm (snd p)) m
   | KOther => true
   end.
 
-Definition agrees_engine (o : KeyOrder) (g : ecase) : bool :=
+Definition agrees_engine_g (o : KeyOrder) (g : ecase) : bool :=
   Nat.eqb (length (g_obs g)) (length (g_epochs g))
   && forallb (fun nob => match eng_state o g (S (fst nob)) with
-                         | Some ks => forall2b kern_close ks (snd nob)
+                         | Some ks => forall2b kern_close_g ks (snd nob)
                          | None => false
                          end) (indexed (g_obs g)).
+End Closeness.
+
+(* float64 runs (jax_enable_x64): 1e-6 relative + 1e-9 absolute *)
+Definition agrees := agrees_g mm_close qclose (1 # 1000000).
+Definition agrees_run := agrees_run_g mm_close.
+Definition agrees_engine := agrees_engine_g mm_close.
+
+(* float32 runs (liesel's default dtype): 1e-3 relative, off-diagonal entries at the scale of their variances *)
+Definition t32 : Q := 1 # 1000.
+Definition agrees32 := agrees_g (mm_close_t t32) (qclose_s t32 0) (4 # 1000).
+Definition agrees_run32 := agrees_run_g (mm_close_t t32).
+Definition agrees_engine32 := agrees_engine_g (mm_close_t t32).
